@@ -14,7 +14,7 @@
    tokens   io  io:maint  io:to0 io:to1  io:len<n>  io:sel<rd><wr>  io:data:<items>  io:eof  io:rerr
             io:fok io:ferr io:fdisc        items: r (request) e (error request) c (100-continue head)
                                                   d (100-continue head whose flush hits a disconnect),
-                                                  x (100-continue head whose flush raises), - empty
+                                                  f (100-continue head whose flush fails: will_close), - empty
             w<k>  w<k>:rc  w<k>:fe  w<k>:lock0  w<k>:lock1
             sd
    labels   dec:<kind> start:<sid> req:<sid>:<r> app:<sid>:<r> end:<sid> crash:<sid> queued:<r> refused
@@ -84,7 +84,7 @@ let wpc_s = function
   | WKeep3 k -> Printf.sprintf "Keep3.%d" (ni k) | WKeepAdd k -> Printf.sprintf "KeepAdd.%d" (ni k)
   | WKeepE k -> Printf.sprintf "KeepE.%d" (ni k) | WKeep5 k -> Printf.sprintf "Keep5.%d" (ni k)
 let sd_s = function SdIdle -> "Idle" | SdC1 -> "C1" | SdC2 -> "C2" | SdC3 -> "C3"
-let item_s = function IReq false -> "r" | IReq true -> "e" | ICont false -> "c" | ICont true -> "d" | IAbort -> "x"
+let item_s = function IReq false -> "r" | IReq true -> "e" | ICont FOk -> "c" | ICont FDisc -> "d" | ICont FErr -> "f"
 let items_s l = if l = [] then "-" else String.concat "" (List.map item_s l)
 
 let nworkers = ref 4
@@ -102,7 +102,7 @@ let state_s (s : state) =
 let items_of (t : string) : item list =
   if t = "-" then [] else
     List.init (String.length t) (fun i -> match t.[i] with
-      | 'r' -> IReq false | 'e' -> IReq true | 'c' -> ICont false | 'd' -> ICont true | 'x' -> IAbort
+      | 'r' -> IReq false | 'e' -> IReq true | 'c' -> ICont FOk | 'd' -> ICont FDisc | 'f' -> ICont FErr
       | _ -> failwith "bad item")
 
 let bit c = (c = '1')
@@ -192,7 +192,7 @@ let mon_s (m : mon) = Printf.sprintf "%s/%s/%s" (b01 m.m_dec) (String.concat "."
 
 let all_items maxnew =
   (* item lists of length <= 2 with at most maxnew requests *)
-  let alpha = ["r"; "e"; "c"; "d"; "x"] in
+  let alpha = ["r"; "e"; "c"; "d"; "f"] in
   let isreq x = (x = "r" || x = "e") in
   let l1 = List.filter (fun x -> (not (isreq x)) || maxnew >= 1) alpha in
   let l2 = List.concat_map (fun a -> List.filter_map (fun b ->
@@ -214,6 +214,7 @@ let choices nw maxreq (s : state) : string list =
       let w = "w" ^ string_of_int i in
       match s.wk (nn i) with
       | WTask _ -> [w ^ ":rc"; w ^ ":fe"; w ^ ":lock0"; w ^ ":lock1"]
+      | WKeepE _ -> [w; w ^ ":fe"]
       | _ -> [w])) in
   io @ wk @ ["sd"]
 
